@@ -332,6 +332,35 @@ func genGdefs(run *vlib.Run, r *vlib.Rand, tier string) {
 			}
 		}
 	}()
+	// the same content behind the header of another GDEF version (the
+	// library writes 1.0 or 1.2; other tools write 1.3 with an item variation
+	// store offset behind the mark glyph sets offset): the table read from the
+	// repacked bytes must equal the table read from the library's own bytes
+	defer func() {
+		n := 0
+		for _, e := range encs {
+			if n >= vlib.Count(tier, 60, 600) {
+				break
+			}
+			if len(e) < 14 || e[3] != 2 {
+				continue
+			}
+			for _, store := range []bool{false, true} {
+				data := gdefRepack13(e, store)
+				line := vlib.Line(vlib.Atom("gdef-read"), vlib.Hex(data))
+				impl, fail := gdefRead(data)
+				want, _ := gdefRead(e)
+				if fail == "" && impl != want {
+					fail = "a GDEF 1.3 table reads as " + impl + ", the same content behind a 1.2 header as " + want
+				}
+				idx := run.Add(line, impl, true, "gdef-read", "gdef-read:version-1.3")
+				if fail != "" {
+					run.Fail(idx, line, fail, "c08-gdef")
+				}
+				n++
+			}
+		}
+	}()
 	add(gdefDesc{})
 	add(gdefDesc{hasGC: true})
 	add(gdefDesc{hasSets: true})
@@ -341,4 +370,31 @@ func genGdefs(run *vlib.Run, r *vlib.Rand, tier string) {
 	for k := 0; k < vlib.Count(tier, 3, 30); k++ {
 		add(genGdef(r, true), "gdef:glyphclass>64KiB")
 	}
+}
+
+
+// gdefRepack13 turns a version 1.2 GDEF table (14-byte header) into a version
+// 1.3 table: itemVarStoreOffset (Offset32) is inserted behind
+// markGlyphSetsDefOffset, every other non-null header offset moves by 4;
+// withStore appends a minimal empty ItemVariationStore and points at it.
+func gdefRepack13(e []byte, withStore bool) []byte {
+	d := append([]byte(nil), e[:14]...)
+	d[3] = 3
+	for p := 4; p < 14; p += 2 {
+		if o := int(d[p])<<8 | int(d[p+1]); o != 0 {
+			o += 4
+			d[p], d[p+1] = byte(o>>8), byte(o)
+		}
+	}
+	body := e[14:]
+	storeAt := 0
+	if withStore {
+		storeAt = 18 + len(body)
+	}
+	d = append(d, byte(storeAt>>24), byte(storeAt>>16), byte(storeAt>>8), byte(storeAt))
+	d = append(d, body...)
+	if withStore {
+		d = append(d, 0, 1, 0, 0, 0, 8, 0, 0, 0, 0, 0, 0) // format 1, region list at 8, no data; empty region list
+	}
+	return d
 }
